@@ -11,30 +11,33 @@
 (***************************************************************************)
 EXTENDS FPValues, FPLogic
 
-Vals == {"true", "false", "empty", "nonbool", "multi"}
+Vals == {"true", "false", "empty", "nonbool", "multi", "multibool"}
 Srcs == {"lit", "elem", "comp", "env", "fn"}
 (* a multi-item literal cannot be written without the unsupported `|` *)
-Forms == {f \in [val : Vals, src : Srcs] : ~(f.val = "multi" /\ f.src = "lit")}
+Forms == {f \in [val : Vals, src : Srcs] : ~(f.val \in {"multi", "multibool"} /\ f.src = "lit")}
 
 Den(f) == CASE f.val = "true"    -> "T"
             [] f.val = "false"   -> "F"
             [] f.val = "empty"   -> "E"
             [] f.val = "nonbool" -> "T"
             [] f.val = "multi"   -> "ERR"
+            [] f.val = "multibool" -> "ERR"     \* several Booleans: still an error, never the first item
 
 AbsText ==
   [true    |-> [lit |-> "true",  elem |-> "Patient.active", comp |-> "(1 = 1)", env |-> "%vt", fn |-> "Patient.name.exists()"],
    false   |-> [lit |-> "false", elem |-> "Patient.communication.first().preferred", comp |-> "(1 = 2)", env |-> "%vf", fn |-> "Patient.name.empty()"],
    empty   |-> [lit |-> "{}",    elem |-> "Patient.photo", comp |-> "(1 = {})", env |-> "%ve", fn |-> "Patient.photo.first()"],
    nonbool |-> [lit |-> "'x'",   elem |-> "Patient.gender", comp |-> "(1 + 1)", env |-> "%vs", fn |-> "Patient.name.first()"],
-   multi   |-> [lit |-> "",      elem |-> "Patient.name", comp |-> "Patient.name.select(given)", env |-> "%vm", fn |-> "Patient.name.take(2)"]]
+   multi   |-> [lit |-> "",      elem |-> "Patient.name", comp |-> "Patient.name.select(given)", env |-> "%vm", fn |-> "Patient.name.take(2)"],
+   multibool |-> [lit |-> "",    elem |-> "Patient.communication.preferred", comp |-> "Patient.name.select(given.exists())", env |-> "%vmb", fn |-> "Patient.communication.preferred.take(2)"]]
 
 RelText ==
   [true    |-> [lit |-> "true",  elem |-> "active", comp |-> "(1 = 1)", env |-> "%vt", fn |-> "name.exists()"],
    false   |-> [lit |-> "false", elem |-> "communication.first().preferred", comp |-> "(1 = 2)", env |-> "%vf", fn |-> "name.empty()"],
    empty   |-> [lit |-> "{}",    elem |-> "photo", comp |-> "(1 = {})", env |-> "%ve", fn |-> "photo.first()"],
    nonbool |-> [lit |-> "'x'",   elem |-> "gender", comp |-> "(1 + 1)", env |-> "%vs", fn |-> "name.first()"],
-   multi   |-> [lit |-> "",      elem |-> "name", comp |-> "name.select(given)", env |-> "%vm", fn |-> "name.take(2)"]]
+   multi   |-> [lit |-> "",      elem |-> "name", comp |-> "name.select(given)", env |-> "%vm", fn |-> "name.take(2)"],
+   multibool |-> [lit |-> "",    elem |-> "communication.preferred", comp |-> "name.select(given.exists())", env |-> "%vmb", fn |-> "communication.preferred.take(2)"]]
 
 Abs(f) == AbsText[f.val][f.src]
 Rel(f) == RelText[f.val][f.src]
